@@ -626,6 +626,18 @@ def mismatch_refused(ctx, rid, body, operand_pred, key, what, sinks=None, floor=
         ctx.ob(rid, bool(differ_edges) and not bad, f"{key}/mismatch-refused",
                f"{what}: `{body.name}` can still succeed when `{r0[:80]}` differs from `{r1[:80]}`",
                where=f"{body.file}:{line}", sample=f"{r0[:60]} vs {r1[:60]}: sink unreachable on the != edge")
+    # ... and the comparison is on *every* path to the sink: no branch (a retry shortcut, a feature test) reaches the
+    # sink without having taken an equal-edge
+    alleq = set()
+    for s_ in sites:
+        alleq |= s_[2]
+    if sites:
+        byp = [s_ for s_ in sinks if not fv.must_pass(s_[0], alleq)]
+        pth = fv.path(0, byp[0][0], cut_edges=alleq) if byp else None
+        ctx.ob(rid, bool(alleq) and not byp, f"{key}/comparison-on-every-path",
+               f"{what}: `{body.name}` can reach its sink without making the comparison at all"
+               + (f" (path lines {fv.lines_of_path(pth)[-8:]})" if pth else ""),
+               where=f"{body.file}:{byp[0][1] if byp else body.line}", sample="sink dominated by the == edge")
     return sites
 
 
